@@ -36,6 +36,7 @@ DEFAULT_FEATURES: Dict[str, float] = {
     "dir_frag": 0.0,  # @skip/@include on an inline fragment / spread (finding C01-F3)
     "typename": 0.1,  # explicit __typename
     "typename_alias": 0.0,  # aliased __typename (finding C01-F8)
+    "typename_cond": 0.0,  # __typename @skip/@include (finding C01-F10)
     "dup_key": 0.0,  # the same response key selected twice (finding C01-F2)
     "abstract_in_mixin": 0.0,  # mixin fragment containing an abstract-typed field at any depth (finding C01-F4)
     "mixin_and_unpacked": 0.0,  # a fragment both inherited and unpacked (finding C08-F1)
@@ -172,7 +173,8 @@ class OpsGen:
             if self.p("typename_alias"):
                 sel.insert(0, {"k": "field", "alias": "kind", "name": "__typename", "args": [], "dirs": [], "sel": []})
             elif "__typename" not in used:
-                sel.insert(self.rng.randint(0, len(sel)), {"k": "field", "alias": None, "name": "__typename", "args": [], "dirs": [], "sel": []})
+                sel.insert(self.rng.randint(0, len(sel)), {"k": "field", "alias": None, "name": "__typename", "args": [],
+                                                           "dirs": self.directives("typename_cond"), "sel": []})
                 used.add("__typename")
         if kind in ("interface", "union") and allow_inline:
             members = possible_types(self.schema, type_name)
